@@ -68,7 +68,16 @@ def first_tok_R(l):
     return l.rstrip()
 
 
-NORMALISERS = {'S': norm_S, 'A': norm_A}
+def norm_handles(l):
+    """handles that no creation of this world issued (null, foreign, forged) are printed differently by the two sides"""
+    return re.sub(r'\br\d+:\d+:\d+\b|\bnull\b', 'X', l.rstrip())
+
+
+def norm_M(l):
+    return ' '.join(x for x in norm_handles(l).split() if x != 'X')
+
+
+NORMALISERS = {'S': norm_S, 'A': norm_A, 'M': norm_M, 'B': norm_handles}
 
 
 def norm(tag, l, extra=None):
